@@ -14,10 +14,10 @@
 //!   RUN  = (run (sched S) (quantum Q) (mode M) (end quiescent|limit|(env-error ..)|(panic ..))
 //!               (steps STEP...) (final (own (r p)..) (status (p st)..) (mail (p n)..) (router (p w)..)))
 //!   STEP = (term p)                                   process p observed completed/failed after a worker step
-//!        | (ev EVENT (calls CALL...) (own (r p)...))  one environment step: the event handled, the backend
+//!        | (ev EVENT (calls CALL...) (watch p...) (own (r p)...))  one environment step: the event handled, the backend
 //!                                                     calls it made (in order), ownership map afterwards
 //!   EVENT= (eff p (open n)) | (eff p (use r n)) | (spawn caller child (V...)) | (send to V from)
-//!        | (results awaiter (p...)) | (complete p ANS) | (await p (t...)) | (other)
+//!        | (results awaiter (p...)) | (terminated p) | (complete p ANS) | (await p (t...)) | (other)
 //!   CALL = (exec p (open n) ANS) | (exec p (use r n) ANS) | (close r)
 //!   ANS  = (now (res r)) | (now o) | (now err) | (async) | (fail)        for `complete`: (res r) | o | err
 //!   V    = (res r) | (t V...) | (f V...) | o
@@ -210,6 +210,8 @@ struct Sim {
     event_text: Option<String>,
     calls: Vec<String>,
     spawned: Option<ProcessId>,
+    /// Command::WatchProcess sent during the current environment step
+    watches: Vec<ProcessId>,
 }
 
 type Shared = Arc<Mutex<Sim>>;
@@ -296,14 +298,17 @@ fn event_text(e: &Event<TestEffect>, sender: Option<ProcessId>) -> String {
             s.push_str("))");
             s
         }
-        Event::DeliverAction { target, message, .. } => {
-            format!(
-                "(send {} {} {})",
-                target,
-                value_text(message),
-                sender.map(|p| p.to_string()).unwrap_or_else(|| "?".to_string())
-            )
+        Event::DeliverAction {
+            sender: from,
+            target,
+            message,
+            ..
+        } => {
+            // the event names its sender (since cb9d796); the instruction trace must agree
+            let _ = sender;
+            format!("(send {} {} {})", target, value_text(message), from)
         }
+        Event::ProcessTerminated { process_id } => format!("(terminated {})", process_id),
         Event::AwaitAction { awaiter, targets } => {
             let t: Vec<String> = targets.iter().map(|t| t.to_string()).collect();
             format!("(await {} ({}))", awaiter, t.join(" "))
@@ -330,6 +335,9 @@ impl WorkerHandle<TestEffect> for Handle {
         let mut s = self.0.lock().unwrap();
         if let Command::SpawnProcess { id, .. } = &command {
             s.spawned = Some(*id);
+        }
+        if let Command::WatchProcess { process_id } = &command {
+            s.watches.push(*process_id);
         }
         s.cmd[self.1].push_back(command);
         Ok(())
@@ -609,6 +617,7 @@ fn run_once(bytecode: Bytecode, nworkers: usize, seed: u64) -> String {
                     s.event_text = None;
                     s.calls.clear();
                     s.spawned = None;
+                    s.watches.clear();
                     match act {
                         Act::E(j) => s.release_event = Some(j),
                         _ => s.release_completion = true,
@@ -622,7 +631,12 @@ fn run_once(bytecode: Bytecode, nworkers: usize, seed: u64) -> String {
                 if let Some(child) = s.spawned {
                     ev = ev.replacen('?', &child.to_string(), 1);
                 }
-                steps.push(format!("(ev {} (calls {}) {})", ev, s.calls.join(" "), own_text(&env)).replace("(calls )", "(calls)"));
+                let watches: Vec<String> = s.watches.iter().map(|p| p.to_string()).collect();
+                steps.push(
+                    format!("(ev {} (calls {}) (watch {}) {})", ev, s.calls.join(" "), watches.join(" "), own_text(&env))
+                        .replace("(calls )", "(calls)")
+                        .replace("(watch )", "(watch)"),
+                );
                 if let Err(e) = r {
                     end = format!("(env-error env {:?})", e).replace('\n', " ");
                     break;
